@@ -90,3 +90,17 @@ def main(ctx):
         ev.sample({"failing": f})
     common.log("C05: %d fonts validated, %d requirement evaluations, %d cross-table references, "
                "%d property-level failures, drift %s" % (len(checked), ev.evaluations, nrefs, nviol, drift_kinds))
+
+
+# ---- assembly half (lead-owned add-on): recorded builds replayed through spec/Assembly.tla
+_main_structure = main
+
+
+def main(ctx):  # noqa: F811
+    _main_structure(ctx)
+    if ctx.replay:
+        return
+    import assembly
+    n_traces, n_eval = ctx.ev.traces, ctx.ev.evaluations
+    assembly.check_assembly(ctx)
+    common.log("C05 assembly: %d recorded builds replayed through Assembly.tla" % (ctx.ev.traces - n_traces))
